@@ -385,6 +385,8 @@ pub struct World {
     pub cfg: Cfg,
     pub now: Ns,
     pub wall_adj: i128,
+    /// a stuck wall clock (VM pause, test of exact sub-second edges): reads return this value
+    pub wall_frozen: Option<i128>,
     seq: u64,
     ev_seq: u64,
     events: BTreeMap<(Ns, u64), Event>,
@@ -508,6 +510,7 @@ impl World {
             cfg,
             now: 0,
             wall_adj: 0,
+            wall_frozen: None,
             seq: 0,
             ev_seq: 0,
             events: BTreeMap::new(),
@@ -599,8 +602,26 @@ impl World {
     // ---------------- time ----------------
 
     pub fn wall_now(&self) -> i128 {
+        if let Some(f) = self.wall_frozen {
+            return f.max(0);
+        }
         let w = self.cfg.wall_start + self.now as i128 + self.wall_adj;
         w.max(0)
+    }
+
+    /// Freeze the wall clock at `wall_ns` (None: resume from the frozen value).
+    pub fn wall_freeze(&mut self, wall_ns: Option<i128>) {
+        match wall_ns {
+            Some(v) => {
+                self.wall_set(v);
+                self.wall_frozen = Some(v.max(0));
+            }
+            None => {
+                if let Some(f) = self.wall_frozen.take() {
+                    self.wall_set(f);
+                }
+            }
+        }
     }
 
     pub fn wall_step(&mut self, delta_ns: i128) {
